@@ -117,7 +117,61 @@ SharedEmitScenarios ==
 -----------------------------------------------------------------------------
 (* Part (b)                                                                         *)
 
-Versions == {"absent", "1.0", "0.9", "1.1", "2.0", "garbage"}
+(* The version attribute (RFC 6120 4.7.5): "<major>.<minor>"; "the major and minor    *)
+(* numbers MUST be treated as separate integers", "leading zeros MUST be ignored by   *)
+(* recipients".  The value on the wire is modelled as what it is: a list of parts (the *)
+(* pieces between the separators), every part a string over                            *)
+(*    0..9 = the digits, 10 = '+', 11 = '-', 12 = ' ', 13 = a letter.                  *)
+(* A header "declares version 1.0" when it has exactly two parts of which the first    *)
+(* denotes the integer one and the second the integer zero - as INTEGERS, of any       *)
+(* length (no wrapping in a machine word).  Whether a recipient also reads a part with *)
+(* surrounding blanks or a sign as the integer it spells is left to it.                *)
+Plus == 10
+Minus == 11
+Blank == 12
+Letter == 13
+VAbsent == [present |-> FALSE, parts |-> <<>>]
+Ver(parts) == [present |-> TRUE, parts |-> parts]
+Ver2(a, b) == Ver(<<a, b>>)
+V10 == Ver2(<<1>>, <<0>>)
+V09 == Ver2(<<0>>, <<9>>)
+
+IsDigits(s) == Len(s) > 0 /\ \A i \in 1..Len(s) : s[i] \in 0..9
+RECURSIVE TrimL(_), TrimR(_)
+TrimL(s) == IF Len(s) > 0 /\ s[1] = Blank THEN TrimL(Tail(s)) ELSE s
+TrimR(s) == IF Len(s) > 0 /\ s[Len(s)] = Blank THEN TrimR(SubSeq(s, 1, Len(s) - 1)) ELSE s
+(* the part spells the integer n (n = 0 or 1) under the most lenient reading           *)
+Denotes(s, n) ==
+  LET t == TrimR(TrimL(s))
+      signed == Len(t) > 0 /\ t[1] \in {Plus, Minus}
+      c == IF signed THEN Tail(t) ELSE t
+  IN /\ IsDigits(c)
+     /\ c[Len(c)] = n /\ (\A i \in 1..(Len(c) - 1) : c[i] = 0)
+     /\ (signed /\ t[1] = Minus => n = 0)
+Is10(ve) == ve.present /\ Len(ve.parts) = 2 /\ Denotes(ve.parts[1], 1) /\ Denotes(ve.parts[2], 0)
+(* a version in the form the RFC prescribes: two non-empty strings of digits *)
+PlainVersion(ve) == ve.present /\ Len(ve.parts) = 2 /\ IsDigits(ve.parts[1]) /\ IsDigits(ve.parts[2])
+
+Versions == {VAbsent, V10, V09, Ver2(<<1>>, <<1>>), Ver2(<<2>>, <<0>>), Ver(<<<<Letter, Letter, Letter>>>>)}
+
+(* Numbers by boundary class: 0 1 9 10 255 256 257 65537 2^32+1 2^64+1, a 41-digit     *)
+(* number, leading zeros (short and long), signs, blanks, nothing, letters.            *)
+Zeros(n) == [i \in 1..n |-> 0]
+NumForms ==
+  {<<0>>, <<1>>, <<9>>, <<1, 0>>, <<2, 5, 5>>, <<2, 5, 6>>, <<2, 5, 7>>, <<5, 1, 2>>, <<5, 1, 3>>, <<6, 5, 5, 3, 6>>, <<6, 5, 5, 3, 7>>,
+   <<4, 2, 9, 4, 9, 6, 7, 2, 9, 6>>, <<4, 2, 9, 4, 9, 6, 7, 2, 9, 7>>,
+   <<1, 8, 4, 4, 6, 7, 4, 4, 0, 7, 3, 7, 0, 9, 5, 5, 1, 6, 1, 6>>, <<1, 8, 4, 4, 6, 7, 4, 4, 0, 7, 3, 7, 0, 9, 5, 5, 1, 6, 1, 7>>,
+   <<1>> \o Zeros(39) \o <<1>>, <<1>> \o Zeros(40),
+   <<0, 0>>, <<0, 1>>, <<0, 0, 1>>, Zeros(40), Zeros(40) \o <<1>>,
+   <<Plus, 1>>, <<Minus, 1>>, <<Plus, 0>>, <<Minus, 0>>, <<Plus>>, <<Minus, 2, 5, 5>>,
+   <<Blank, 1>>, <<1, Blank>>, <<Blank, 0>>, <<1, Blank, 0>>, <<Blank>>,
+   <<>>, <<Letter>>, <<1, Letter>>, <<Letter, 0>>}
+(* every pair (major, minor); one part only (no separator); a third part *)
+VersionForms ==
+  {Ver2(a, b) : a \in NumForms, b \in NumForms}
+  \cup {Ver(<<a>>) : a \in NumForms}
+  \cup {Ver(<<a, b, c>>) : a \in {<<1>>, <<>>}, b \in {<<0>>, <<>>}, c \in {<<0>>, <<>>, <<1>>}}
+
 (* name: stream   = <stream:stream/> in the streams namespace (the TCP stream-open)  *)
 (*       open     = <open/> in the framing namespace (the WebSocket stream-open)     *)
 (*       othername / otherns = another local name / the right local name elsewhere   *)
@@ -125,23 +179,59 @@ Versions == {"absent", "1.0", "0.9", "1.1", "2.0", "garbage"}
 Names == {"stream", "open", "othername", "otherns"}
 Conds == {"host-unknown", "not-authorized", "see-other-host"}
 
+(* The attributes of a header are the UNQUALIFIED attributes id, version, from, to   *)
+(* and xml:lang (Namespaces in XML: an attribute with a prefix belongs to the        *)
+(* namespace of the prefix, and xmlns:p='..' is a declaration, not an attribute of    *)
+(* the element's vocabulary).  Next to every one of them - present or not - the peer  *)
+(* may write a look-alike that shares only the LOCAL name:                            *)
+(*    foreign_before / foreign_after   p:id='..' in another namespace, in front of /  *)
+(*                                     behind the place of the real attribute         *)
+(*    nsdecl                           xmlns:id='..', a declaration of the prefix "id" *)
+(* A look-alike always carries a value of its own (another id, version 1.0, another   *)
+(* address, another language).  It never counts: acceptance is decided by the real    *)
+(* attributes alone, and the values a session recovers are the real ones.             *)
+Attrs == {"id", "version", "from", "to", "lang"}
+Looks == {"none", "foreign_before", "foreign_after", "nsdecl"}
+NoLook == [a \in Attrs |-> "none"]
+LookCombos(n) == {lk \in [Attrs -> Looks] : Cardinality({a \in Attrs : lk[a] # "none"}) <= n}
+LookOne == LookCombos(1)
+LookTwo == LookCombos(2)
+
 HdrVec(role, framing, name, xmlns, version, id, to, from, pre, cond) ==
   [role |-> role, framing |-> framing, name |-> name, xmlns |-> xmlns, version |-> version, id |-> id,
-   to |-> to, from |-> from, pre |-> pre, cond |-> cond]
+   to |-> to, from |-> from, pre |-> pre, cond |-> cond, lang |-> "absent", look |-> NoLook]
 
 AcceptVectors(pres, addrs) ==
   {h \in {HdrVec(ro, f, n, ns, ve, i, t, fr, p, "") :
              ro \in Roles, f \in Framings, n \in Names, ns \in {"client", "server", "other", "absent"},
              ve \in Versions, i \in {"absent", "empty", "set"}, t \in addrs, fr \in addrs, p \in pres} :
      h.name = "open" => h.xmlns = "absent"}     \* <open/> declares no content namespace
-  \cup {HdrVec(ro, f, "error", "", "", "", "", "", p, c) : ro \in Roles, f \in Framings, p \in pres, c \in Conds}
+  \cup {HdrVec(ro, f, "error", "", VAbsent, "", "", "", p, c) : ro \in Roles, f \in Framings, p \in pres, c \in Conds}
+
+(* an otherwise good stream-open of the framing in use *)
+GoodHdr(ro, f, ve, i, t, fr, lg, lk) ==
+  [HdrVec(ro, f, IF f = "ws" THEN "open" ELSE "stream", IF f = "ws" THEN "absent" ELSE "client", ve, i, t, fr, "none", "")
+     EXCEPT !.lang = lg, !.look = lk]
+(* the version dimension: every form, both roles, both framings *)
+VersionVectors ==
+  {GoodHdr(ro, f, ve, "set", "valid", "valid", "absent", NoLook) : ro \in Roles, f \in Framings, ve \in VersionForms}
+(* the look-alike dimension: one look-alike next to every combination of present and   *)
+(* absent real attributes; two look-alikes next to all / none of the real attributes   *)
+LookVectors ==
+  {GoodHdr(ro, f, ve, i, t, fr, lg, lk) :
+     ro \in Roles, f \in Framings, ve \in {VAbsent, V10, V09}, i \in {"absent", "set"}, t \in {"absent", "valid"},
+     fr \in {"absent", "valid"}, lg \in {"absent", "set"}, lk \in LookOne}
+  \cup {GoodHdr(ro, f, y[1], y[2], y[3], y[3], y[4], lk) :
+           ro \in Roles, f \in Framings, lk \in LookTwo,
+           y \in {<<V10, "set", "valid", "set">>, <<VAbsent, "absent", "absent", "absent">>, <<V09, "absent", "valid", "absent">>}}
+(* (the three families are kept apart: TLC tests membership in a union of comprehensions by enumeration) *)
 
 IsOpenElement(v) == (v.framing = "tcp" /\ v.name = "stream") \/ (v.framing = "ws" /\ v.name = "open")
 (* the content namespace is the default namespace declared on <stream:stream/>; the  *)
 (* WebSocket <open/> declares none (RFC 7395)                                        *)
 NsSupported(v) == v.framing = "ws" \/ v.xmlns \in {"client", "server"}
 IdOK(v) == v.role = "recv" \/ v.id = "set"
-MayAccept(v) == v.name # "error" /\ IsOpenElement(v) /\ NsSupported(v) /\ v.version = "1.0" /\ IdOK(v)
+MayAccept(v) == v.name # "error" /\ IsOpenElement(v) /\ NsSupported(v) /\ Is10(v.version) /\ IdOK(v)
 
 (* Expected verdict of the property: "reject" where a necessary condition fails,     *)
 (* "streamerror" (the error itself is returned) for a stream error, else no opinion. *)
@@ -149,10 +239,23 @@ MayAccept(v) == v.name # "error" /\ IsOpenElement(v) /\ NsSupported(v) /\ v.vers
 Expect(v) == IF v.name = "error" THEN (IF v.pre = "none" THEN "streamerror" ELSE "error")
              ELSE IF MayAccept(v) THEN "any" ELSE "reject"
 
+(* What an accepting session has recovered (Session.In(), its addresses, the header it *)
+(* answers with): for a real attribute its value ("real"); for an attribute the header *)
+(* does not carry the property names no value - only that a look-alike's value is not  *)
+(* it ("notlook").                                                                     *)
+Carries(v, a) == CASE a = "id" -> v.id = "set"
+                   [] a = "version" -> v.version.present
+                   [] a = "from" -> v.from = "valid"
+                   [] a = "to" -> v.to = "valid"
+                   [] a = "lang" -> v.lang = "set"
+Recover(v) == [a \in Attrs |-> IF v.name # "error" /\ Carries(v, a) THEN "real" ELSE "notlook"]
+(* deviation of the non-vacuity run: numbers read into eight bits *)
+Wraps10(ve) == ve.present /\ Len(ve.parts) = 2 /\ ve.parts[1] \in {<<2, 5, 7>>, <<5, 1, 3>>} /\ ve.parts[2] \in {<<0>>, <<2, 5, 6>>}
+
 VARIABLES v, pc, verdict
 bvars == <<v, pc, verdict>>
 
-AcceptInit(V) == v \in V /\ pc = "pre" /\ verdict = "none"
+AcceptInit(V) == (v \in V \/ v \in VersionVectors \/ v \in LookVectors) /\ pc = "pre" /\ verdict = "none"
 
 Reject(why) == pc' = "done" /\ verdict' = why /\ UNCHANGED v
 Goto(p) == pc' = p /\ UNCHANGED <<v, verdict>>
@@ -167,12 +270,14 @@ CheckName == pc = "name" /\ IF IsOpenElement(v) THEN Goto("attrs") ELSE Reject("
 ParseAttrs ==
   /\ pc = "attrs"
   /\ \/ Goto("version")
-     \/ ("invalid" \in {v.to, v.from} \/ v.version = "garbage") /\ Reject("reject")
+     \/ ("invalid" \in {v.to, v.from} \/ (v.version.present /\ ~PlainVersion(v.version))) /\ Reject("reject")
 CheckVersion ==
   /\ pc = "version"
-  /\ IF v.version = "1.0" \/ ("AcceptOldVersion" \in Dev /\ v.version = "0.9") THEN Goto("ns") ELSE Reject("reject")
+  /\ IF Is10(v.version) \/ ("AcceptOldVersion" \in Dev /\ v.version = V09)
+        \/ ("VersionModulo256" \in Dev /\ Wraps10(v.version)) THEN Goto("ns") ELSE Reject("reject")
 CheckNs == pc = "ns" /\ IF NsSupported(v) THEN Goto("id") ELSE Reject("reject")
-CheckId == pc = "id" /\ IF IdOK(v) THEN (Reject("accept") \/ Reject("reject")) ELSE Reject("reject")
+(* (deviation of the non-vacuity run: a look-alike of the id counts as the id) *)
+CheckId == pc = "id" /\ IF IdOK(v) \/ ("LocalNameOnly" \in Dev /\ v.look["id"] # "none") THEN (Reject("accept") \/ Reject("reject")) ELSE Reject("reject")
 
 AcceptNext == SkipPre \/ CheckError \/ CheckName \/ ParseAttrs \/ CheckVersion \/ CheckNs \/ CheckId
 
